@@ -553,6 +553,19 @@ theorem addAll_none_of_nonstate {P} (O : Oracles P) (S : List Event) (acc : P) (
       apply ih
       simpa [hs] using h
 
+/-- with state events only, the slot check of the code is the specification's "two different events for one
+    (type, state_key)" -/
+theorem slotClash_of_allState (S : List Event) (hs : ∀ x ∈ S, x.stateKey.isSome = true) :
+    slotClash S = S.any (fun a => S.any (fun b => (b.type == a.type && b.stateKey == a.stateKey) && !sameEvent a b)) := by
+  unfold slotClash
+  rw [Bool.eq_iff_iff]
+  simp only [List.any_eq_true, Bool.and_eq_true]
+  constructor
+  · rintro ⟨a, ha, _, b, hb, _, h⟩
+    exact ⟨a, ha, b, hb, h⟩
+  · rintro ⟨a, ha, b, hb, h⟩
+    exact ⟨a, ha, hs a ha, b, hb, hs b hb, h⟩
+
 /-- `at_state_iff`: VerifyAuthRulesAtState accepts exactly when (validation is permitted and every auth
     event ID of the event is among the state IDs before it) or the event is allowed by THE STATE before it —
     every event of the returned state takes part, whether or not the event cites it —; a failing provider
@@ -581,13 +594,27 @@ theorem at_state_iff {P} (O : Oracles P) (sp : StateProvider) (e : Event) (allow
             obtain ⟨kv, hkv, rfl⟩ := List.mem_map.mp hx
             have := (List.any_eq_false.mp hns) kv hkv
             cases hs : kv.2.stateKey <;> simp_all
-          rw [addAll_of_stateKeys O _ O.empty hall]
-          simp only [stateProviderOf, Bool.false_eq_true, if_false]
-          cases hal : O.allowedBy e ((kvs.map (·.2)).foldl O.add O.empty) <;> simp [asCoarse]
-        · have : (kvs.map (·.2)).any (fun x => x.stateKey.isNone) = true := by
+          have hallB : (kvs.map (·.2)).all (fun a => a.stateKey.isSome) = true := List.all_eq_true.mpr hall
+          rw [slotClash_of_allState _ hall]
+          unfold formsState
+          rw [hallB]
+          cases hcl : (kvs.map (·.2)).any (fun a => (kvs.map (·.2)).any (fun b =>
+              (b.type == a.type && b.stateKey == a.stateKey) && !sameEvent a b))
+          · simp only [Bool.false_eq_true, if_false, Bool.not_false, Bool.and_self, Bool.not_true]
+            rw [addAll_of_stateKeys O _ O.empty hall]
+            simp only [stateProviderOf]
+            cases hal : O.allowedBy e ((kvs.map (·.2)).foldl O.add O.empty) <;> simp [asCoarse]
+          · simp [asCoarse]
+        · have hnot : (kvs.map (·.2)).all (fun a => a.stateKey.isSome) = false := by
+            rw [List.all_eq_false]
+            obtain ⟨kv, hkv, hk⟩ := List.any_eq_true.mp hns
+            refine ⟨kv.2, List.mem_map.mpr ⟨kv, hkv, rfl⟩, ?_⟩
+            cases hs : kv.2.stateKey <;> simp_all
+          have : (kvs.map (·.2)).any (fun x => x.stateKey.isNone) = true := by
             rw [List.any_map]; exact hns
-          rw [addAll_none_of_nonstate O _ O.empty this]
-          simp [asCoarse]
+          unfold formsState
+          rw [hnot, addAll_none_of_nonstate O _ O.empty this]
+          cases slotClash (kvs.map (·.2)) <;> simp [asCoarse]
 
 /-- What the check computed before the repair of finding R1 differs from the specification exactly through
     the state events the event does not cite.  Abstract witness: the state holds a power-levels event `pl`
@@ -600,10 +627,20 @@ example (pl e : Event) (hpl : pl.stateKey = some []) (he : e.authEventIDs = []) 
       (verifyAuthRulesAtState O sp e false []).1 = .notAllowed := by
   simp [atStateCited, atState, verifyAuthRulesAtState, atStateSlow, addAll, stateLookup, citesNonState, authOf, stateProviderOf, he, hpl]
 
+/-- The formerly order-dependent input (second audit, X2): the returned "state" holds two DIFFERENT events for one
+    (type, state_key) — say the power levels before and after `events_default` was raised.  The survivor of the Go map
+    iteration used to decide (22 accepts / 178 rejects over 200 identical calls); now the call is refused, by the
+    specification and by the model alike, whatever the oracles and whatever the event. -/
+example {P} (O : Oracles P) (pl1 pl2 e : Event) (h1 : pl1.stateKey = some []) (h2 : pl2.stateKey = some [])
+    (ht : pl2.type = pl1.type) (hd : sameEvent pl1 pl2 = false) :
+    let sp : StateProvider := { ids := fun _ => some [], state := fun _ _ => some [(pl1.eventID, pl1), (pl2.eventID, pl2)] }
+    atState O sp e false = some false ∧ (verifyAuthRulesAtState O sp e false []).1 = .notAllowed := by
+  simp [atState, verifyAuthRulesAtState, atStateSlow, formsState, slotClash, h1, h2, ht, hd]
+
 /-- where the event cites exactly the state, the two readings agree -/
 theorem atStateCited_eq {P} (O : Oracles P) (sp : StateProvider) (e : Event) (allow : Bool)
     (hcite : ∀ ids kvs, sp.ids e = some ids → sp.state e ids = some kvs →
-      kvs.any (fun kv => kv.2.stateKey.isNone) = false ∧ authOf O (stateLookup kvs) e = stateProviderOf O (kvs.map (·.2)) ∧
+      formsState (kvs.map (·.2)) = true ∧ authOf O (stateLookup kvs) e = stateProviderOf O (kvs.map (·.2)) ∧
       citesNonState kvs e = false) :
     atStateCited O sp e allow = atState O sp e allow := by
   unfold atStateCited atState
@@ -617,7 +654,7 @@ theorem atStateCited_eq {P} (O : Oracles P) (sp : StateProvider) (e : Event) (al
       | none => rfl
       | some kvs =>
         obtain ⟨h1, h2, h3⟩ := hcite ids kvs hids hst
-        simp only [h1, h3, Bool.false_eq_true, if_false]
+        simp only [h1, h3, Bool.not_true, Bool.false_eq_true, if_false]
         rw [h2]
 
 /-! ## EventsLoader.LoadAndVerify -/
